@@ -221,6 +221,8 @@ def plan(prop, tier, seed):
     elif prop == "C11":
         data(n(30, 400)); data(n(15, 150), with_close=True, updates=True); fam(n(10, 100), scen.large_session, "large"); fam(n(12, 200), scen.unit_session, "unit")
         fam(n(25, 400), scen.inject_session, "inject")
+        # packet headers with several history words, reserved first and refreshed in place at the flush (C11's second clause: the packet header round trip)
+        fam(n(15, 200), scen.window_session, "window"); fam(n(10, 150), scen.refresh_session, "refresh")
     elif prop == "C12":
         data(n(25, 300)); data(n(15, 150), with_close=True, updates=True); fam(n(10, 150), scen.large_session, "large"); fam(n(10, 100), scen.window_session, "window")
         fam(n(12, 200), scen.unit_session, "unit"); fam(n(10, 150), scen.bytebuf_session, "bytebuf")
